@@ -375,7 +375,7 @@ func slotRule(p *core.Prog, r *core.Report, rule, fnName, check, deadline, count
 // C05
 
 func checkC05(p *core.Prog, r *core.Report) {
-	r.Explanation = "Decides structural necessary conditions of wait timeouts: (R1) every store to a waiter's deadline is now + T*unit + 1 with the unit selected by the matching flag tests on the path and the period widened to int64 before scaling (tabled: keep-alive re-arm, clamp to the sweeper position); (R2) the second-wheel sweeper hands an entry to the timeout queue only on timeoutTime <= now (never early) and the long-wait table is swept Len() times before it is retired (holes are skipped, not taken as the end); (R3) wheel constants (power of two, mask, back-off < length) and the slot chosen by AddTimeOut is never behind the sweeper; (R4) a request is queued only with Timeout > 0; otherwise it is answered TIMEOUT once (C03-R1) and its lock object freed; (R5) a grant tombstones the wait before replying (C03-R3 instance, re-checked here). NOT decided: the upper bound T+2 s and eventual firing (sweeper liveness, scheduling), hand-over timing between wheel, long table and millisecond wheel."
+	r.Explanation = "Decides structural necessary conditions of wait timeouts: (R1) every store to a waiter's deadline is now + T*unit + 1 with the unit selected by the matching flag tests on the path and the period widened to int64 before scaling (tabled: keep-alive re-arm, clamp to the sweeper position); (R2) the second-wheel sweeper hands an entry to the timeout queue only on timeoutTime <= now (never early) and the long-wait table is swept Len() times before it is retired (holes are skipped, not taken as the end); (R3) wheel constants (power of two, mask, back-off < length) and the slot chosen by AddTimeOut is never behind the sweeper; (R4) a request is queued only with Timeout > 0; otherwise it is answered TIMEOUT once (C03-R1) and its lock object freed; (R5) a sweeper re-arms an entry only after testing its tombstone clear (the Add* functions reset it). NOT decided: the upper bound T+2 s and eventual firing (sweeper liveness, scheduling), hand-over timing between wheel, long table and millisecond wheel."
 	r.Assumptions = []string{"Go type checker and go/ssa are correct for /repo", "the server clock LockDB.currentTime is second-granular and monotone"}
 	deadlineRule(p, r, deadlineSpec{rule: "C05/R1", field: fk("server.Lock", "timeoutTime"), amount: "Timeout", flagName: "TimeoutFlag",
 		exceptions: map[string]map[string]string{
@@ -390,6 +390,7 @@ func checkC05(p *core.Prog, r *core.Report) {
 	wheelConstants(p, r, "C05/R3", "TIMEOUT", false)
 	slotRule(p, r, "C05/R3", "server.(*LockDB).AddTimeOut", "checkTimeoutTime", "timeoutTime", "timeoutCheckedCount")
 	c05R4(p, r)
+	rearmRule(p, r, "C05/R5", []string{"server.(*LockDB).checkTimeTimeOut", "server.(*LockDB).checkMillisecondTimeOut"}, "TimeOut", "timeouted")
 }
 
 func c05R4(p *core.Prog, r *core.Report) {
@@ -450,7 +451,7 @@ func c05R4(p *core.Prog, r *core.Report) {
 // C06
 
 func checkC06(p *core.Prog, r *core.Report) {
-	r.Explanation = "Decides structural necessary conditions of hold expiry: (R1) every store to a hold's deadline is start + E*unit + 1 (start = current time, or the lock's startTime set from the current time on the same path) with the unit selected by the matching flag tests and the period widened before scaling, or the never-expiring sentinel under the unlimited flag (tabled: not-yet-granted zero, keep-alive and follower re-arm, clamp to the sweeper); (R2) the sweeper hands a wheel entry to the expiry queue only on expriedTime <= now, and sweeps the long table Len() times before retiring it; (R3) wheel constants incl. back-off+2 <= 10 and the slot chosen by AddExpried is never behind the sweeper; (R5) doExpried's effect order on the live path: tombstone, depth subtraction, RemoveLock under the mutex, then one EXPRIED reply and the wake-up pass; (R6) when an update or re-lock changes the deadline of a hold that sits in the long-wait table, the entry is removed under its old deadline and re-inserted (with its reference) - skipped only when the deadline is unchanged. NOT decided: the upper bounds E+2 s / 10 s (sweeper liveness), behaviour across the 16-slot wrap under load."
+	r.Explanation = "Decides structural necessary conditions of hold expiry: (R1) every store to a hold's deadline is start + E*unit + 1 (start = current time, or the lock's startTime set from the current time on the same path) with the unit selected by the matching flag tests and the period widened before scaling, or the never-expiring sentinel under the unlimited flag (tabled: not-yet-granted zero, keep-alive and follower re-arm, clamp to the sweeper); (R2) the sweeper hands a wheel entry to the expiry queue only on expriedTime <= now, and sweeps the long table Len() times before retiring it; (R3) wheel constants incl. back-off+2 <= 10 and the slot chosen by AddExpried is never behind the sweeper; (R5) doExpried's effect order on the live path: tombstone, depth subtraction, RemoveLock under the mutex, then one EXPRIED reply and the wake-up pass; (R6) when an update or re-lock changes the deadline of a hold that sits in the long-wait table, the entry is removed under its old deadline and re-inserted (with its reference) - skipped only when the deadline is unchanged; (R7) a sweeper re-arms an entry only after testing its tombstone clear. NOT decided: the upper bounds E+2 s / 10 s (sweeper liveness), behaviour across the 16-slot wrap under load."
 	r.Assumptions = []string{"Go type checker and go/ssa are correct for /repo", "the server clock LockDB.currentTime is second-granular and monotone"}
 	deadlineRule(p, r, deadlineSpec{rule: "C06/R1", field: fk("server.Lock", "expriedTime"), amount: "Expried", flagName: "ExpriedFlag",
 		exceptions: map[string]map[string]string{
@@ -467,6 +468,7 @@ func checkC06(p *core.Prog, r *core.Report) {
 	slotRule(p, r, "C06/R3", "server.(*LockDB).AddExpried", "checkExpriedTime", "expriedTime", "expriedCheckedCount")
 	c06R5(p, r)
 	c06R6(p, r)
+	rearmRule(p, r, "C06/R7", []string{"server.(*LockDB).checkTimeExpried", "server.(*LockDB).checkMillisecondExpried"}, "Expried", "expried")
 }
 
 func c06R5(p *core.Prog, r *core.Report) {
@@ -682,4 +684,46 @@ func resolveLoad(fr *core.Frame, v ssa.Value) (string, string, bool) {
 		}
 	}
 	return "", "", false
+}
+
+// rearmRule (C05/R5, C06/R7): a sweeper that finds an entry not yet due puts it
+// back on a wheel. The Add* functions reset the entry's tombstone
+// (timeouted / expried = false), so re-arming an entry that was already
+// answered - granted or cancelled while it sat on the wheel - resurrects it: it
+// is answered a second time when its old deadline passes. Every re-arm in a
+// sweeper is therefore on the not-tombstoned side of a test of that entry.
+func rearmRule(p *core.Prog, r *core.Report, rule string, fns []string, kind, tomb string) {
+	r.Rule(rule, "sweepers re-arm an entry (Add*"+kind+") only on a path that tested that entry's tombstone ("+tomb+") clear", 2)
+	for _, name := range fns {
+		fn := mustFunc(p, r, name)
+		if fn == nil {
+			continue
+		}
+		n := 0
+		ex := core.NewExplorer(p, core.Hooks{
+			Track: func(x *core.X, a core.Atom) bool { return strings.HasSuffix(core.Plain(a.L), "."+tomb) },
+			Instr: func(x *core.X) {
+				if !x.Top() {
+					return
+				}
+				c := core.StaticCallee(x.Ins)
+				if c == nil || recvName(c) != "LockDB" || !(c.Name() == "Add"+kind || c.Name() == "AddMillisecond"+kind) {
+					return
+				}
+				n++
+				lk := core.Plain(argCanon(x, x.Ins, 1))
+				key := siteKey(p, x.Ins)
+				if x.Passed(lk + "." + tomb + " == false") {
+					r.Hold(rule, key, x.Pos(), "entry tested not answered before the re-arm")
+				} else {
+					r.Violate(rule, key, x.Pos(), "an entry is put back on a wheel without its tombstone having been tested clear: Add* resets the tombstone, so a request that was already answered (granted / cancelled / released) is answered again when its old deadline passes", x.St.Trace)
+				}
+			},
+		})
+		ex.Run(fn, nil)
+		if ex.Imprecise != "" {
+			r.Fail("%s %s: %s", rule, name, ex.Imprecise)
+		}
+		_ = n
+	}
 }
